@@ -40,3 +40,5 @@ def run(rep):
     # an unknown dialect is a typed, located error; the look-ahead stops at EOF through the EOF-guarded wrappers
     dr.rule_header(rep, "C01.header")
     pr.rule_look(rep, "C01.look")
+    # no hidden state: what the property promises for one use must hold for every later use as well
+    ms.rule_stateless(rep, "C01")
